@@ -32,7 +32,8 @@ type ParserData struct {
 		index   int
 		textPos int
 	}
-	codeOverflow bool // 指令数超过上限(8192)，有指令被丢弃；Parse 据此报错而不是执行残缺的程序
+	loopLayerStack []int // 进入函数体/computed缓冲区时保存的 loopLayer
+	codeOverflow   bool  // 指令数超过上限(8192)，有指令被丢弃；Parse 据此报错而不是执行残缺的程序
 }
 
 type BufferSpan struct {
@@ -410,6 +411,10 @@ func (p *ParserData) CodePush(textPos int) {
 	}{code: p.code, index: p.codeIndex, textPos: textPos})
 	p.code = make([]ByteCode, 256)
 	p.codeIndex = 0
+	// 函数体/computed 有自己的指令缓冲区: 外层循环的 break/continue 不能写在里面
+	// (否则 BreakSet 会用内层缓冲区的下标去修改外层代码)
+	p.loopLayerStack = append(p.loopLayerStack, p.loopLayer)
+	p.loopLayer = 0
 }
 
 func (p *ParserData) CodePop() ([]ByteCode, int, int) {
@@ -420,5 +425,9 @@ func (p *ParserData) CodePop() ([]ByteCode, int, int) {
 	p.codeStack = p.codeStack[:last]
 	p.code = info.code
 	p.codeIndex = info.index
+	if n := len(p.loopLayerStack); n > 0 {
+		p.loopLayer = p.loopLayerStack[n-1]
+		p.loopLayerStack = p.loopLayerStack[:n-1]
+	}
 	return lastCode, lastIndex, info.textPos
 }
